@@ -32,6 +32,26 @@ def impl_src(ty, name, methods):
     return "impl %s for %s {\n%s\n}\n" % (name, ty, ms)
 
 
+def cast_blocks(k, optkeys):
+    """Layout!CastSameBits: the concrete form `<Group>With<Traits>` produced by cast! has the bit pattern of the group it
+    was cast from, for EVERY non-empty subset of the optional traits (adjacent in name order or not)"""
+    import itertools
+    out = []
+    for r in range(1, len(optkeys) + 1):
+        for sub in itertools.combinations(optkeys, r):
+            out.append("""        {
+            let gg = g%d::GBaseBox::<L>::from(CBox::from(Box::new(L { tag: 8 }))).into_opaque();
+            let w0 = raw8(&gg);
+            let n0 = std::mem::size_of_val(&gg) / 8;
+            match cast!(gg impl %s) {
+                Some(cc) => report(&mut out, "group%d:cast_same_bits:%s", std::mem::size_of_val(&cc) / 8 == n0 && raw8(&cc)[..n0.min(8)] == w0[..n0.min(8)], format!("{:x?} vs {:x?}", &raw8(&cc)[..n0.min(8)], &w0[..n0.min(8)])),
+                None => report(&mut out, "group%d:cast_same_bits:%s", false, "cast refused although every optional trait is implemented".to_string()),
+            }
+        }
+""" % (k, " + ".join(sub), k, "+".join(sub), k, "+".join(sub)))
+    return "".join(out)
+
+
 def group_macro(gname, listing):
     mand = ", ".join(listing["mand"])
     opt = ", ".join(o["tr"] if o["tr"] == o["key"] else "%s = %s" % (o["tr"], o["key"]) for o in listing["opt"])
@@ -120,12 +140,12 @@ def main():
         let opq = gobj.into_opaque();
         let sz1 = (std::mem::size_of_val(&opq), std::mem::align_of_val(&opq));
         report(&mut out, "group%d:bits", sz0 == sz1 && b0[..(sz0.0 / 8).min(8)] == raw8(&opq)[..(sz0.0 / 8).min(8)], format!("{:?} {:?}", sz0, sz1));
-        let g2 = g%d::GBaseBox::<L2>::from(CBox::from(Box::new(L2 { tag: 6 })));
+%s        let g2 = g%d::GBaseBox::<L2>::from(CBox::from(Box::new(L2 { tag: 6 })));
         let words2: Vec<usize> = (0..n).map(|i| unsafe { *(&g2 as *const _ as *const usize).add(i) }).collect();
         let expect2: Vec<usize> = vec![%s];
         report(&mut out, "group%d:absent_is_null", words2 == expect2, format!("{:?} vs {:?}", words2, expect2));
     }
-""" % (k, len(keys), exp_all, k, k, k, k, exp_l2, k))
+""" % (k, len(keys), exp_all, k, k, k, cast_blocks(k, optkeys), k, exp_l2, k))
     # containers: instance, context, temporary storage at the predicted word offsets (single-trait objects)
     src.append("""#[cglue_trait] pub trait CPlain { fn cp_me(&self) -> usize; }
 #[cglue_trait] pub trait CHolder {
